@@ -15,6 +15,7 @@ pub mod c11;
 pub mod c12;
 pub mod c12_support;
 pub mod c13;
+pub mod c14;
 pub mod c15;
 pub mod c17;
 pub mod c18;
@@ -38,6 +39,7 @@ pub fn run(check: &str, ctx: &mut Ctx) -> bool {
         "c11" => c11::run(ctx),
         "c12" => c12::run(ctx),
         "c13" => c13::run(ctx),
+        "c14" => c14::run(ctx),
         "c15" => c15::run(ctx),
         "c17" => c17::run(ctx),
         "c18" => c18::run(ctx),
